@@ -67,7 +67,7 @@ func failedOuts(kind string, cls int) string {
 	case kind == "nts.auth" || kind == "nts.resp":
 		return fmt.Sprintf("%d 0 0 []", cls)
 	case kind == "srv.ip":
-		return "0 []"
+		return "0 [] 0"
 	case kind == "srv.csptp":
 		return "0 0 0"
 	case kind == "cli.csptp":
